@@ -65,17 +65,17 @@ def plan(pid, tier):
     q = tier == "quick"
     P = {
         "C01": dict(mc=[inst_c01(5 if q else 7)], drivers=[("boundary", 1, []), ("fuzz", 300 if q else 30000, [])]),
-        "C03": dict(mc=[inst_kernels(1, lines="RunOnly")], drivers=[("progs", 80 if q else 4000, [])]),
+        "C03": dict(mc=[inst_kernels(1, lines="RunOnly")], drivers=[("progs", 240 if q else 4000, [])]),
         "C04": dict(mc=[inst_c04(4 if q else 5)], drivers=[]),
         "C07": dict(mc=[inst_kernels(3 if q else 4, lines="BreakLines")], drivers=[("breakcont", 60 if q else 3000, []), ("stopassign", 120 if q else 4000, [])]),
         "C08": dict(mc=[inst_kernels(2 if q else 3, lines="BreakLines", kernels="InputKernels")],
                     drivers=[("inputassign", 150 if q else 6000, []), ("progs", 40 if q else 1500, ["input"])]),
-        "C09": dict(mc=[inst_kernels(1, trace=True, lines="RunOnly")], drivers=[("progs", 80 if q else 3000, ["trace", "input"])]),
+        "C09": dict(mc=[inst_kernels(1, trace=True, lines="RunOnly")], drivers=[("progs", 200 if q else 3000, ["trace", "input"])]),
         "C10": dict(mc=[inst_c01(5 if q else 6)], drivers=[("runfresh", 120 if q else 6000, [])]),
         "C11": dict(mc=[inst_kernels(3 if q else 4, lines="EditLines")], drivers=[("editprobe", 150 if q else 6000, [])]),
         "C16": dict(mc=[inst_kernels(1, lines="RunOnly", kernels="CapKernels"), inst_c01(4 if q else 6)],
                     drivers=[("boundary", 1, []), ("fuzz", 200 if q else 20000, []), ("progs", 40 if q else 1500, [])]),
-        "C17": dict(mc=[inst_kernels(2 if q else 3, trace=True, warn=True, lines="BreakLines")], drivers=[("flags4", 40 if q else 2000, [])]),
+        "C17": dict(mc=[inst_kernels(2 if q else 3, trace=True, warn=True, lines="BreakLines")], drivers=[("flags4", 80 if q else 2000, [])]),
     }
     return P[pid]
 
@@ -192,6 +192,25 @@ def run(pid, tier, seed):
         cov["traces_validated_against_impl"] += d["runs"]
         cov["drivers"].append(d)
 
+    if pid == "C03":
+        # breadth: every one-line program of MC_C06b (all operator pairs, every position of every
+        # comma-separated list, both operand kinds) RUN in the model and on the real interpreter --
+        # exactly the printed output and, on failure, the error kind and line
+        from . import ana
+        groups = [["un", "bin", "lists"]] if tier == "quick" else [["un", "bin", "unbin", "lists"], ["left"], ["right"]]
+        for gi, shapes in enumerate(groups):
+            gcfg = ("INIT Init\nNEXT Next\nCONSTANT Shapes = {" + ", ".join(f'"{x}"' for x in shapes) + "}\nCONSTANT EmitRows = TRUE\n"
+                    "INVARIANT C06\nINVARIANT EmitRow\nCHECK_DEADLOCK FALSE\n")
+            stb, repb = ana.replay_mc(wd, "MC_C06b", gcfg, "c06-replay", f"mc_oneline_{gi}", workers=4)
+            n = repb["counters"].get("outputs_compared", 0)
+            cov["states"] += stb["distinct"]
+            cov["rows_replayed"] += n
+            cov["traces_validated_against_impl"] += n
+            cov["instances"].append({"instance": f"MC_C06b{shapes}: one-line programs, printed output and error line compared", "distinct_states": stb["distinct"],
+                                     "transitions_replayed": n, "tlc_wall_s": stb["wall_s"]})
+            for v in repb["violations"]:
+                if v["property"] == "C03" or v["class"] in ("run_differs_from_model", "panic"):
+                    violations.append({**v, "property": "C03"})
     if pid == "C01":
         dv, dn = c.deep_probes(pid, ["paren", "abs", "index", "ifthen", "not", "dimsubs", "implicit"])
         violations += dv
